@@ -18,6 +18,7 @@ use crate::net::fault::{Action, MutOp, Rule, Side};
 use crate::net::rig::{self, Pair, PairSpec, state_name};
 use crate::net::wire::{self, DClass, DtlsRec};
 use crate::refimpl::dtls_hs as hs;
+use crate::refimpl::foreign_certs::{self, LeafKind};
 use bytes::Bytes;
 use parking_lot::Mutex;
 use proptest::prelude::*;
@@ -214,12 +215,16 @@ pub struct Case {
     pub ops: Vec<Op>,
     #[serde(default)]
     pub forge: Option<Forge>,
+    /// kind of the genuine identity's certificate. For every kind but P-256 nobody holds the
+    /// private key: whoever presents that leaf signs with the attacker's P-256 key.
+    #[serde(default)]
+    pub leaf: LeafKind,
 }
 
 impl Case {
     /// field defaults for struct-update syntax
     fn blank() -> Case {
-        Case { victim_server: false, g: 0, peer: Peer::Genuine, fp: Fp::Genuine, fp_form: FpForm::Canonical, ops: vec![], forge: None }
+        Case { victim_server: false, g: 0, peer: Peer::Genuine, fp: Fp::Genuine, fp_form: FpForm::Canonical, ops: vec![], forge: None, leaf: LeafKind::P256 }
     }
 }
 
@@ -242,18 +247,29 @@ fn assemble(chain: Vec<Vec<u8>>, private_key: String) -> Certificate {
     c
 }
 
+/// The genuine identity as an endpoint can play it: its leaf and the key that endpoint signs with.
+pub(crate) fn identity(g: u8, leaf: LeafKind) -> Certificate {
+    match leaf {
+        LeafKind::P256 => genuine(g),
+        // a certificate whose key no DTLS endpoint here holds (and which a P-256-only stack cannot
+        // use): replayed byte for byte, ServerKeyExchange signed with the attacker's key
+        kind => assemble(vec![foreign_certs::leaf(kind, &genuine(g).certificate[0])], attacker(g).private_key),
+    }
+}
+
 fn peer_certificate(c: &Case) -> Certificate {
+    let id = identity(c.g, c.leaf);
     match &c.peer {
-        Peer::Genuine => genuine(c.g),
+        Peer::Genuine => id,
         Peer::AttackerOwn => attacker(c.g),
         // the ServerKeyExchange is signed by a key that is not the presented certificate's
-        Peer::GenuineChainAttackerKey => assemble(genuine(c.g).certificate, attacker(c.g).private_key),
+        Peer::GenuineChainAttackerKey => assemble(id.certificate, attacker(c.g).private_key),
         Peer::EmptyChain => assemble(vec![], attacker(c.g).private_key),
         Peer::MixedChain { genuine_first } => {
-            let (a, b) = (genuine(c.g).certificate[0].clone(), attacker(c.g).certificate[0].clone());
+            let (a, b) = (id.certificate[0].clone(), attacker(c.g).certificate[0].clone());
             assemble(if *genuine_first { vec![a, b] } else { vec![b, a] }, attacker(c.g).private_key)
         }
-        Peer::MangledLeaf(m) => assemble(vec![m.apply(&genuine(c.g).certificate[0])], genuine(c.g).private_key),
+        Peer::MangledLeaf(m) => assemble(vec![m.apply(&id.certificate[0])], id.private_key),
     }
 }
 
@@ -265,14 +281,14 @@ fn canonical_fp(c: &Case) -> Option<String> {
     let of = |cert: &Certificate| hs::sdp_fingerprint(&cert.certificate[0]);
     match c.fp {
         Fp::None => None,
-        Fp::Genuine => Some(of(&genuine(c.g))),
+        Fp::Genuine => Some(of(&identity(c.g, c.leaf))),
         Fp::Attacker => Some(of(&attacker(c.g))),
         Fp::Third => Some(of(&third(c.g))),
         Fp::Presented => {
             let p = peer_certificate(c);
             match p.certificate.first() {
                 Some(leaf) => Some(hs::sdp_fingerprint(leaf)),
-                None => Some(of(&genuine(c.g))),
+                None => Some(of(&identity(c.g, c.leaf))),
             }
         }
     }
@@ -1101,6 +1117,9 @@ fn judge(c: &Case, o: &Observed, sh: &Shared, force_server_auth: bool, rec: &Cas
         }
     ));
     rec.label(format!("fp={:?}", c.fp));
+    if c.leaf != LeafKind::P256 {
+        rec.label(format!("leaf={:?}", c.leaf));
+    }
     if c.fp_form != FpForm::Canonical && c.fp != Fp::None {
         rec.label(format!("fp-form={:?}", c.fp_form));
     }
@@ -1142,8 +1161,8 @@ fn judge(c: &Case, o: &Observed, sh: &Shared, force_server_auth: bool, rec: &Cas
     let a = analyse(o);
     let describe = |what: &str| {
         format!(
-            "{what}; victim={role} peer={:?} fp={:?}/{:?} forge={:?} ops={:?} states={:?} final={} ever_connected={} ekm_ok={} app_records={} delivered_to_victim={} dgrams",
-            c.peer, c.fp, c.fp_form, c.forge, c.ops, o.states, o.final_state, connected, o.ekm_ok, o.app.len(), o.v_in.len()
+            "{what}; victim={role} leaf={:?} peer={:?} fp={:?}/{:?} forge={:?} ops={:?} states={:?} final={} ever_connected={} ekm_ok={} app_records={} delivered_to_victim={} dgrams",
+            c.leaf, c.peer, c.fp, c.fp_form, c.forge, c.ops, o.states, o.final_state, connected, o.ekm_ok, o.app.len(), o.v_in.len()
         )
     };
 
@@ -1173,7 +1192,7 @@ fn judge(c: &Case, o: &Observed, sh: &Shared, force_server_auth: bool, rec: &Cas
         let au = client_auth(&f, &a);
         let auth_ok = au.cert_match && au.key_proof;
         rec.label(if auth_ok { "client:authenticated" } else { "client:not-authenticated" });
-        let impostor = c.peer != Peer::Genuine || !matches!(c.fp, Fp::Genuine | Fp::Presented) || c.fp_form != FpForm::Canonical;
+        let impostor = c.peer != Peer::Genuine || !matches!(c.fp, Fp::Genuine | Fp::Presented) || c.fp_form != FpForm::Canonical || c.leaf != LeafKind::P256;
         rec.set_nontrivial(impostor || fired > 0 || o.forged.is_some());
         if connected && !au.cert_match {
             let sig = if au.any_certificate { "client-connected-without-matching-certificate" } else { "client-connected-without-certificate" };
@@ -1440,6 +1459,27 @@ fn fp_form_cases() -> Vec<Case> {
     out
 }
 
+/// The victim is told to expect (and is shown, byte for byte) a certificate whose key cannot be
+/// used for a ServerKeyExchange check; the presenter signs with its own P-256 key, or the
+/// signature is damaged / cut on the way.
+fn foreign_leaf_cases() -> Vec<Case> {
+    let mut out = Vec::new();
+    let mut g = 0u8;
+    for leaf in foreign_certs::FOREIGN {
+        for fp in [Fp::Genuine, Fp::Presented] {
+            for peer in [Peer::Genuine, Peer::GenuineChainAttackerKey, Peer::MixedChain { genuine_first: true }] {
+                g = (g + 1) % 5;
+                out.push(Case { g, leaf, fp, peer, ..Case::blank() });
+            }
+        }
+        for kind in [Kind::FlipBody { pos: 0xF000, bit: 2 }, Kind::Mutate(MutOp::Truncate { pos: 0xC000 }), Kind::Mutate(MutOp::SetByte { pos: 0xFFFF, val: 0 })] {
+            g = (g + 1) % 5;
+            out.push(Case { g, leaf, ops: vec![Op { from_client: false, class: DClass::ServerKeyExchange, ordinal: 0, kind }], ..Case::blank() });
+        }
+    }
+    out
+}
+
 fn case_strategy() -> impl Strategy<Value = Case> {
     prop::bool::weighted(0.35)
         .prop_flat_map(move |vs| {
@@ -1453,18 +1493,20 @@ fn case_strategy() -> impl Strategy<Value = Case> {
             };
             let nops = if vs { 1..=3usize } else { 0..=3usize };
             let forge = prop_oneof![4 => Just(None), 1 => forge_strategy(vs).prop_map(Some)];
-            (Just(vs), 0..5u8, peer, fp, prop::collection::vec(op_strategy(vs), nops), forge)
+            let leaf = if vs { Just(LeafKind::P256).boxed() } else { prop_oneof![11 => Just(LeafKind::P256), 2 => prop::sample::select(foreign_certs::FOREIGN.to_vec())].boxed() };
+            (Just(vs), 0..5u8, peer, fp, prop::collection::vec(op_strategy(vs), nops), forge, leaf)
         })
-        .prop_map(|(victim_server, g, mut peer, (mut fp, mut fp_form), mut ops, forge)| {
+        .prop_map(|(victim_server, g, mut peer, (mut fp, mut fp_form), mut ops, forge, mut leaf)| {
             if forge.is_some() {
                 // a forged Finished only matters to a victim that got as far as holding session
                 // keys: genuine peer, matching fingerprint, at most one other operator
                 peer = Peer::Genuine;
                 fp = Fp::Genuine;
                 fp_form = FpForm::Canonical;
+                leaf = LeafKind::P256;
                 ops.truncate(1);
             }
-            Case { victim_server, g, peer, fp, fp_form, ops, forge }
+            Case { victim_server, g, peer, fp, fp_form, ops, forge, leaf }
         })
 }
 
@@ -1636,7 +1678,7 @@ where
 
 pub fn run(ctx: &mut Ctx) {
     ctx.level = "fault_enumeration";
-    ctx.rule = "two real rustrtc DTLS endpoints over the harness network; the victim (either DTLS role) expects fingerprint F in {genuine identity's, attacker's, an unrelated certificate's, the presented leaf's, none}; the peer is a self-consistent endpoint with an assembled certificate: (i) genuine chain+key, (ii) attacker chain+key, (iii) genuine chain + attacker key, (iv) empty chain, (v) genuine leaf with a flipped bit / truncation / overwritten byte, (vi) two-certificate chain mixing genuine and attacker certificate with the attacker's key; on top 0-3 on-path operators addressed by sender, message class and transmission ordinal: drop, duplicate, hold back (reorder), omit every transmission, omit + close the message_seq gap, bit flip / truncate / set byte anywhere, bit flip inside the handshake body, splice Certificate / ServerKeyExchange / whole server flight recorded in another session of the genuine identity (record sequence moved forward), extended-master-secret downgrade of the ClientHello, Finished re-sealed with one verify_data bit flipped by a key-knowing relay, extra epoch-0 application-data record. Takeover sub-checks: a harness-implemented active on-path party obtains the genuine server's signed flight for the victim's ClientHello, presents the victim client with a flight mixing genuine messages with a ServerKeyExchange carrying its own P-256 share (garbage / empty / copied-genuine / attacker-key signature), the attacker's Certificate, a second ServerHello with another random, duplicates or omissions, message_seq continued or colliding, and then completes the handshake itself (ring ECDH, own PRF/Finished, AES-GCM records) on every key schedule derivable from its share, else relays to the genuine server; fixed grid of named shapes + proptest insertions. Sub-checks: full peer x F matrix, random cases, single-bit flips of the Certificate and ServerKeyExchange datagrams (quick: all header bits + 1/11 of the rest; thorough: every bit), fixed key-confirmation cases, server-role probe. Non-trivial = the peer is an impostor or F does not name it, or at least one operator fired; distinct by case digest.".into();
+    ctx.rule = "two real rustrtc DTLS endpoints over the harness network; the victim (either DTLS role) expects fingerprint F in {genuine identity's, attacker's, an unrelated certificate's, the presented leaf's, none}; the peer is a self-consistent endpoint with an assembled certificate: (i) genuine chain+key, (ii) attacker chain+key, (iii) genuine chain + attacker key, (iv) empty chain, [the genuine identity's certificate itself is ECDSA P-256 made by rustrtc or - leaf kinds - a real RSA-2048 / Ed25519 / ECDSA P-384 / secp256k1 certificate, or a P-256 certificate re-fitted with an unknown-OID / truncated / non-DER SubjectPublicKeyInfo; nobody holds a foreign leaf's key, its presenter signs with the attacker's P-256 key] (v) genuine leaf with a flipped bit / truncation / overwritten byte, (vi) two-certificate chain mixing genuine and attacker certificate with the attacker's key; on top 0-3 on-path operators addressed by sender, message class and transmission ordinal: drop, duplicate, hold back (reorder), omit every transmission, omit + close the message_seq gap, bit flip / truncate / set byte anywhere, bit flip inside the handshake body, splice Certificate / ServerKeyExchange / whole server flight recorded in another session of the genuine identity (record sequence moved forward), extended-master-secret downgrade of the ClientHello, Finished re-sealed with one verify_data bit flipped by a key-knowing relay, extra epoch-0 application-data record. Takeover sub-checks: a harness-implemented active on-path party obtains the genuine server's signed flight for the victim's ClientHello, presents the victim client with a flight mixing genuine messages with a ServerKeyExchange carrying its own P-256 share (garbage / empty / copied-genuine / attacker-key signature), the attacker's Certificate, a second ServerHello with another random, duplicates or omissions, message_seq continued or colliding, and then completes the handshake itself (ring ECDH, own PRF/Finished, AES-GCM records) on every key schedule derivable from its share, else relays to the genuine server; fixed grid of named shapes + proptest insertions. Sub-checks: full peer x F matrix, random cases, single-bit flips of the Certificate and ServerKeyExchange datagrams (quick: all header bits + 1/11 of the rest; thorough: every bit), fixed key-confirmation cases, server-role probe. Non-trivial = the peer is an impostor or F does not name it, or at least one operator fired; distinct by case digest.".into();
     ctx.assumptions = vec![
         "oracle inputs are the datagrams recorded at the entrance of each endpoint's DTLS layer plus the victim's published state/keys; the victim's own decisions are never trusted".into(),
         "'proved possession of the corresponding private key' for a client victim = a ServerKeyExchange delivered in this handshake whose ECDSA signature verifies (ring) under the P-256 key found in the leaf that hashes to F, over a ClientHello random the victim sent, a ServerHello random delivered to it and the ECDH parameters; plus key confirmation: a delivered Finished whose verify_data matches a transcript the victim can have seen (RFC 5246 7.4.9)".into(),
@@ -1675,6 +1717,8 @@ pub fn run(ctx: &mut Ctx) {
     run_fixed(ctx, &rt, "finished-forge", forge_cases(), conc, checker(sh.clone(), false));
     // 3c. non-canonical / malformed expected-fingerprint strings
     run_fixed(ctx, &rt, "fingerprint-forms", fp_form_cases(), conc, checker(sh.clone(), false));
+    // 3d. expected + presented leaf of a kind whose key cannot vouch for a ServerKeyExchange
+    run_fixed(ctx, &rt, "foreign-leaf", foreign_leaf_cases(), conc, checker(sh.clone(), false));
     // 4. plaintext application data before authentication, asked directly
     let plain_probe = vec![
         Case { victim_server: false, g: 2, peer: Peer::AttackerOwn, fp: Fp::Genuine, ops: vec![Op { from_client: false, class: DClass::ServerHello, ordinal: 0, kind: Kind::InjectPlainAppData }], ..Case::blank() },
